@@ -1,4 +1,7 @@
 import Marwood.Lemmas.TotalOps
+import Marwood.Lemmas.TotalListP
+import Marwood.Lemmas.TotalPrelude
+import Marwood.Lemmas.StackWFNoPanic
 import Marwood.Proofs.C07
 import Marwood.Proofs.C11
 import Marwood.Proofs.C20
@@ -681,12 +684,88 @@ theorem isPairB_noPanic (hs : s.WF) (ha : ∀ v ∈ args, VCell.Valid s v) : Out
     simp [hc]
   · simp
 
+/-! ### T06.2 (continued) — `append` and the Scheme-defined library procedures
+
+`append` (list.rs: `clone_list` + relinking with `setCell`) and the prelude's `length`,
+`memq memv member assq assv assoc`, `map`, `for-each` (`Store/Prelude.lean`). The lemmas behind them
+(`Lemmas/TotalPrelude.lean`) carry the well-formedness of the store through every allocation and every
+`set-cdr!`-like relink, so the results are stated twice: never a panic, and the store handed back is
+well formed again (`Post s (s', v)`: `s'.WF`, `s'` at least as large as `s`, `v` valid in `s'`) — the
+hypothesis `Store.WF` of all T06.2 lemmas is preserved by these procedures. -/
+
+theorem append_noPanic (fuel : Nat) (hs : s.WF) (ha : ∀ v ∈ args, VCell.Valid s v) :
+    Outcome.NoPanic (append fuel s args) := (append_sat fuel hs ha).1
+
+theorem append_wf (fuel : Nat) (hs : s.WF) (ha : ∀ v ∈ args, VCell.Valid s v) {s' : Store} {v : VCell}
+    (h : append fuel s args = .ok (s', v)) : s'.WF ∧ Store.Le s s' ∧ VCell.Valid s' v :=
+  (append_sat fuel hs ha).2 _ h
+
+theorem cons_wf (hs : s.WF) {a d : VCell} (ha : VCell.Valid s a) (hd : VCell.Valid s d) {s' : Store} {v : VCell}
+    (h : cons s [a, d] = .ok (s', v)) : s'.WF ∧ Store.Le s s' ∧ VCell.Valid s' v :=
+  (cons_sat hs ha hd).2 _ h
+
+theorem list_wf (hs : s.WF) (ha : ∀ v ∈ args, VCell.Valid s v) {s' : Store} {v : VCell}
+    (h : list s args = .ok (s', v)) : s'.WF ∧ Store.Le s s' ∧ VCell.Valid s' v :=
+  (list_sat hs ha).2 _ h
+
+theorem length_noPanic (fuel : Nat) (hs : s.WF) {l : VCell} (hl : VCell.Valid s l) :
+    Outcome.NoPanic (Store.length fuel s l) := (length_sat hs fuel l hl).1
+
+theorem memq_noPanic (fuel : Nat) (hs : s.WF) {obj l : VCell} (ho : VCell.Valid s obj) (hl : VCell.Valid s l) :
+    Outcome.NoPanic (memq fuel s obj l) :=
+  (mem_sat hs (fun _ _ ha hb => eqTest_noPanic hs ha hb) fuel obj l ho hl).1
+
+theorem memv_noPanic (fuel : Nat) (hs : s.WF) {obj l : VCell} (ho : VCell.Valid s obj) (hl : VCell.Valid s l) :
+    Outcome.NoPanic (memv fuel s obj l) :=
+  (mem_sat hs (fun _ _ ha hb => eqTest_noPanic hs ha hb) fuel obj l ho hl).1
+
+theorem member_noPanic (fuel : Nat) (hs : s.WF) {obj l : VCell} (ho : VCell.Valid s obj) (hl : VCell.Valid s l) :
+    Outcome.NoPanic (member fuel s obj l) :=
+  (mem_sat hs (fun _ _ ha hb => equalTest_noPanic fuel hs ha hb) fuel obj l ho hl).1
+
+theorem assq_noPanic (fuel : Nat) (hs : s.WF) {obj l : VCell} (ho : VCell.Valid s obj) (hl : VCell.Valid s l) :
+    Outcome.NoPanic (assq fuel s obj l) :=
+  (ass_sat hs (fun _ _ ha hb => eqTest_noPanic hs ha hb) fuel obj l ho hl).1
+
+theorem assv_noPanic (fuel : Nat) (hs : s.WF) {obj l : VCell} (ho : VCell.Valid s obj) (hl : VCell.Valid s l) :
+    Outcome.NoPanic (assv fuel s obj l) :=
+  (ass_sat hs (fun _ _ ha hb => eqTest_noPanic hs ha hb) fuel obj l ho hl).1
+
+theorem assoc_noPanic (fuel : Nat) (hs : s.WF) {obj l : VCell} (ho : VCell.Valid s obj) (hl : VCell.Valid s l) :
+    Outcome.NoPanic (assoc fuel s obj l) :=
+  (ass_sat hs (fun _ _ ha hb => equalTest_noPanic fuel hs ha hb) fuel obj l ho hl).1
+
+/-- `map` with any callee that obeys `CalleeLaw` (on every well-formed store and valid arguments the
+    callee does not panic and hands back a well-formed store and a valid value) -/
+theorem map_noPanic {g : Callee} (hg : CalleeLaw g) (fuel : Nat) (hs : s.WF) (ha : ∀ v ∈ args, VCell.Valid s v) :
+    Outcome.NoPanic (map g fuel s args) := (map_sat hg fuel hs ha).1
+
+theorem map_wf {g : Callee} (hg : CalleeLaw g) (fuel : Nat) (hs : s.WF) (ha : ∀ v ∈ args, VCell.Valid s v)
+    {s' : Store} {v : VCell} (h : map g fuel s args = .ok (s', v)) :
+    s'.WF ∧ Store.Le s s' ∧ VCell.Valid s' v := (map_sat hg fuel hs ha).2 _ h
+
+theorem forEach_noPanic {g : Callee} (hg : CalleeLaw g) (fuel : Nat) (hs : s.WF) (ha : ∀ v ∈ args, VCell.Valid s v) :
+    Outcome.NoPanic (forEach g fuel s args) := (forEach_sat hg fuel hs ha).1
+
+theorem forEach_wf {g : Callee} (hg : CalleeLaw g) (fuel : Nat) (hs : s.WF) (ha : ∀ v ∈ args, VCell.Valid s v)
+    {s' : Store} {v : VCell} (h : forEach g fuel s args = .ok (s', v)) :
+    s'.WF ∧ Store.Le s s' ∧ VCell.Valid s' v := (forEach_sat hg fuel hs ha).2 _ h
+
+/-- the law is satisfiable: `car`, `cdr`, `cons`, `list` obey it, and so does `append` and — closing the
+    loop — `map g` / `for-each g` for every lawful `g` -/
+theorem calleeLaw_instances : CalleeLaw car ∧ CalleeLaw cdr ∧ CalleeLaw cons ∧ CalleeLaw list ∧
+    (∀ fuel, CalleeLaw (append fuel)) ∧
+    (∀ g fuel, CalleeLaw g → CalleeLaw (map g fuel)) ∧ (∀ g fuel, CalleeLaw g → CalleeLaw (forEach g fuel)) :=
+  ⟨calleeLaw_car, calleeLaw_cdr, calleeLaw_cons, calleeLaw_list,
+   fun fuel _ _ hs ha => append_sat fuel hs ha,
+   fun _ fuel hg _ _ hs ha => map_sat hg fuel hs ha, fun _ fuel hg _ _ hs ha => forEach_sat hg fuel hs ha⟩
+
 /-! ### T06.2 (numbers) — the Scheme-level numeric procedures of the Num model
 
-`+ - *`, the comparisons, `min max`, the one-argument procedures, `expt` and `/` on every list of
-numbers (any length, any representations). `quotient remainder modulo` are not covered by a theorem
-here: their model has division-by-zero panic branches that the wrapper's zero test guards; that
-guard is checked by the class correspondence only. -/
+`+ - *`, the comparisons, `min max`, the one-argument procedures, `expt`, `/` and
+`quotient remainder modulo` on every list of numbers (any length, any representations). The models
+of `/`, `quotient`, `Rem` and `modulo` have division-by-zero panic branches; the theorems show that
+the zero test of the Scheme-level wrapper keeps every argument list away from them. -/
 
 section Numbers
 open Marwood.Arith
@@ -768,6 +847,59 @@ theorem scmDivide_noPanic (args : List Num) : NumNoPanic (scmDivide args) := by
     · cases h
     · rename_i hz; exact hdiv _ _ (by simpa using hz) m h
   · cases h
+
+/-- `Number::quotient` cannot reach one of its division-by-zero panics once the divisor passed the
+    wrapper's `is_zero` test — for every pair of representations -/
+theorem quotient_noPanic {x y : Num} (hz : isZero y = false) (m : String) : quotient x y ≠ some (.panic m) := by
+  intro h
+  cases x <;> cases y <;> simp only [quotient] at h <;> simp only [isZero] at hz <;>
+    (repeat' split at h) <;> simp_all
+
+theorem rem_noPanic {x y : Num} (hz : isZero y = false) (m : String) : rem x y ≠ some (.panic m) := by
+  intro h
+  cases x <;> cases y <;> simp only [rem] at h <;> simp only [isZero] at hz <;>
+    (repeat' split at h) <;> simp_all
+
+theorem modulo_noPanic {x y : Num} (hz : isZero y = false) (m : String) : modulo x y ≠ some (.panic m) := by
+  intro h
+  unfold modulo at h
+  split at h
+  · split at h <;> cases h
+  · exact rem_noPanic hz m h
+
+/-- the wrapper shared by `quotient`, `remainder`, `modulo` (`pop_integer` twice, zero test, the
+    operation): no argument list reaches a panic of an operation that is safe for a non-zero divisor -/
+theorem scmIntOp_noPanic {op : Num → Num → Option (Arith.Outcome (Option Num))}
+    (hop : ∀ x y, isZero y = false → ∀ m, op x y ≠ some (.panic m)) (args : List Num) :
+    ∀ r, scmIntOp op args = some r → NumNoPanic r := by
+  intro r hr m hm
+  subst hm
+  unfold scmIntOp at hr
+  split at hr
+  · rename_i x y
+    split at hr
+    · cases hr
+    · split at hr
+      · cases hr
+      · split at hr
+        · cases hr
+        · rename_i hz
+          split at hr <;> try (cases hr)
+          rename_i hs
+          exact hop x y (by simpa using hz) _ hs
+  · cases hr
+
+theorem scmQuotient_noPanic (args : List Num) : ∀ r, scmQuotient args = some r → NumNoPanic r :=
+  scmIntOp_noPanic (fun _ _ hz m => quotient_noPanic hz m) args
+theorem scmRemainder_noPanic (args : List Num) : ∀ r, scmRemainder args = some r → NumNoPanic r :=
+  scmIntOp_noPanic (fun _ _ hz m => rem_noPanic hz m) args
+theorem scmModulo_noPanic (args : List Num) : ∀ r, scmModulo args = some r → NumNoPanic r :=
+  scmIntOp_noPanic (fun _ _ hz m => modulo_noPanic hz m) args
+
+/-- the zero test is what does it: without it the operation panics (`(quotient 1 0)` at the level of
+    `Number::quotient`) -/
+theorem quotient_by_zero_panics : quotient (.fix 1) (.fix 0) = some (.panic "BigInt division by zero") := by
+  decide
 
 end Numbers
 
@@ -864,6 +996,41 @@ theorem equal_circular_diverges (fuel : Nat) : equalB fuel circ [.ptr 2, .ptr 1]
     have g2 : derefArg circ (.ptr 2) = .ok (.pair 0 2) := rfl
     simp only [equalB, equal, he, bind_ok, Bool.false_eq_true, if_false, g1, g2, hP, bind_diverge]
 
+/-- **T06.3, `list?` after `3d7bbb6`: termination on EVERY store.** For every well-formed store — of any
+    size, circular or not — and every valid argument, `2·|cells| + 2` iterations of the repaired loop
+    are enough: the builtin answers a boolean (no `diverge`, no `panic`, no `err`), leaves the store
+    alone, and the boolean is `#t` exactly when the cdr chain of the argument reaches `()`
+    (`ProperList`, an inductive predicate: a circular chain is not a proper list).
+    Floyd / pigeonhole: `Lemmas/TotalListP.lean`. -/
+theorem isListTH_total (hs : s.WF) {x : VCell} (hx : VCell.Valid s x) {fuel : Nat}
+    (hf : 2 * s.cells.length + 2 ≤ fuel) :
+    ∃ b, isListTH fuel s [x] = .ok (s, .bool b) ∧ (b = true ↔ ProperList s x) :=
+  Marwood.Store.isListTH_total hs hx hf
+
+/-- every argument list (any arity): a boolean or the arity error -/
+theorem isListTH_terminates (hs : s.WF) (ha : ∀ v ∈ args, VCell.Valid s v) {fuel : Nat}
+    (hf : 2 * s.cells.length + 2 ≤ fuel) :
+    (∃ b, isListTH fuel s args = .ok (s, .bool b)) ∨ isListTH fuel s args = .err .arity :=
+  Marwood.Store.isListTH_terminates hs ha hf
+
+/-- no hypothesis on the store at all (wild references included: those panic, they do not hang) -/
+theorem isListTH_never_diverges (s : Store) (args : List VCell) {fuel : Nat}
+    (hf : 2 * s.cells.length + 2 ≤ fuel) : isListTH fuel s args ≠ .diverge :=
+  Marwood.Store.isListTH_never_diverges s args hf
+
+/-- the bound is met by the witnesses: the circular store has 5 cells, fuel 12 -/
+example : ∃ b, isListTH 12 circ [.ptr 3] = .ok (circ, .bool b) ∧ (b = true ↔ ProperList circ (.ptr 3)) :=
+  isListTH_total circ_wf (by simp [VCell.Valid, circ]) (by simp [circ])
+
+/-- … and the two-element cycle is not a proper list -/
+theorem circ_not_properList : ¬ ProperList circ (.ptr 3) := by
+  obtain ⟨b, hb, hiff⟩ := isListTH_total (fuel := 12) circ_wf (x := .ptr 3) (by simp [VCell.Valid, circ]) (by simp [circ])
+  have : isListTH 12 circ [.ptr 3] = .ok (circ, .bool false) := rfl
+  rw [this] at hb
+  cases b with
+  | false => intro h; exact absurd (hiff.mpr h) (by simp)
+  | true => simp at hb
+
 /-! ### T06.4 — every error renders -/
 
 /-- `Display` of every `Error` variant produces text; the two index errors subtract with
@@ -886,6 +1053,36 @@ theorem failed_eval_quiescent {H : Type} (ops : Vm.HeapOps H) (gc : Vm.St H → 
     (h : Vm.runEval ops gc count fuel s = .failed f s') (hg : Vm.GcRegs gc) :
     Marwood.Proofs.C07.Quiescent s' :=
   (Marwood.Proofs.C07.failed_eval_resets ops gc count fuel s f s' h hg).1
+
+/-! ### T06.6 — `step` (`run_one`) does not panic in a WF machine state
+
+`Lemmas/StackWFNoPanic.lean`. `WFS` is the frame-chain invariant of C04/C05/C07 (preserved by `step`,
+`Vm.step_preserves`); `PanicLaws` lists what the stack invariant cannot see (heap-object facts, and
+that the heap-side operations — closure / activation construction, vector push, the generic builtins,
+`eval`'s compiler — do not panic). Excluded for every WF state: all checked subtractions (`bp - n` of
+RET, `sp - 4` of ENTER, `bp - it`, `saved_sp - it - 1`, `bp - frame_argc` of TCALL, `ip.1 -= 1` of
+`apply` / `eval` / `call/cc`, `args.len() - 1` of VARARG), the slice of `to_continuation` and the
+`%ip is not a procedure` expectations. Two sites remain, `Vm.Residual`:
+`restore_continuation`'s `split_at_mut` (a continuation longer than the current stack — excluded in
+the real VM by the temporal fact that the stack only grows, which `WFS` does not record) and the
+model's fuel guard in `apply`'s list walk (a cyclic argument list; the Rust loop would hang). -/
+
+theorem step_panic_sites {H : Type} {ops : Vm.HeapOps H} {cl : Vm.CodeLaws ops} (pl : Vm.PanicLaws cl)
+    {s : Vm.St H} {K : List Vm.FDesc} (hw : Vm.WFS cl s K) (m : String) (h : Vm.step ops s = .panic m) :
+    m = "restore_continuation: split_at_mut out of range" ∨ m = "apply: list longer than fuel (cyclic list)" :=
+  Vm.step_pin pl hw m h
+
+/-- with the two residual sites excluded for the state at hand, no panic at all -/
+theorem step_never_panics {H : Type} {ops : Vm.HeapOps H} {cl : Vm.CodeLaws ops} (pl : Vm.PanicLaws cl)
+    {s : Vm.St H} {K : List Vm.FDesc} (hw : Vm.WFS cl s K)
+    (hres : ∀ m, Vm.Residual m → Vm.step ops s ≠ .panic m) : ∀ m, Vm.step ops s ≠ .panic m :=
+  fun m h => Vm.step_noPanic pl hw hres m h
+
+/-- the laws are satisfiable (the toy instance of C04/C05/C07), and along a run from a WF start every
+    state is covered -/
+example (k : Nat) (s' : Vm.St Unit) (h : Vm.Toy.runK k (Vm.prepare Vm.Toy.idle 1) = some s') (m : String)
+    (hp : Vm.step Vm.Toy.ops s' = .panic m) : Vm.Residual m :=
+  Vm.Toy.runK_pin k _ s' [] Vm.Toy.wf_start1 h m hp
 
 /-! ### the population: the regenerated table -/
 
